@@ -140,3 +140,94 @@ def nfa_has_eps_cycle(c):
                 seen.add(x)
                 todo.extend(g.get(x, ()))
     return False
+
+
+# ---------------------------------------------------------------- grammars
+def _rhs_pool(vs, ts, maxlen):
+    syms = [['V', v] for v in vs] + [['T', t] for t in ts]
+    pool = [[]]
+    for n in range(1, maxlen + 1):
+        pool += [list(x) for x in itertools.product(syms, repeat=n)]
+    return pool
+
+
+def all_rules(vs, ts, maxlen=2):
+    return [[v, rhs] for v in vs for rhs in _rhs_pool(vs, ts, maxlen)]
+
+
+def mk_cfg(rules, S='S', extra_vars=(), extra_terms=()):
+    V, T = [S] + list(extra_vars), list(extra_terms)
+    for v, rhs in rules:
+        if v not in V:
+            V.append(v)
+        for k, n in rhs:
+            if k == 'V' and n not in V:
+                V.append(n)
+            if k == 'T' and n not in T:
+                T.append(n)
+    return {'V': V, 'Sigma': T, 'R': [[v, [list(s) for s in rhs]] for v, rhs in rules], 'S': S}
+
+
+def random_cfg(rng, nvars=3, nterms=2, nrules=5, maxlen=4, peps=0.15, punit=0.15, varnames=None):
+    vs = varnames or ['S', 'A', 'B', 'C', 'D'][:nvars]
+    ts = ['a', 'b', 'c'][:nterms]
+    rules = []
+    for _ in range(nrules):
+        v = rng.choice(vs)
+        x = rng.random()
+        if x < peps:
+            rhs = []
+        elif x < peps + punit:
+            rhs = [['V', rng.choice(vs)]]
+        else:
+            n = rng.randint(1, maxlen)
+            rhs = [(['V', rng.choice(vs)] if rng.random() < 0.5 else ['T', rng.choice(ts)]) for _ in range(n)]
+        rules.append([v, rhs])
+    if not any(v == vs[0] for v, _ in rules):
+        rules.insert(0, [vs[0], [['T', ts[0]]]])
+    return mk_cfg(rules, vs[0], extra_vars=vs, extra_terms=ts if rng.random() < 0.5 else ())
+
+
+def random_cnf(rng, nvars=3, nterms=2, nrules=6, start_eps=0.2):
+    """CNF: S not on any right-hand side"""
+    vs = ['S', 'A', 'B', 'C', 'D'][:max(2, nvars)]
+    ts = ['a', 'b', 'c'][:nterms]
+    rules = []
+    for _ in range(nrules):
+        v = rng.choice(vs)
+        if rng.random() < 0.45:
+            rules.append([v, [['T', rng.choice(ts)]]])
+        else:
+            rules.append([v, [['V', rng.choice(vs[1:])], ['V', rng.choice(vs[1:])]]])
+    if rng.random() < start_eps:
+        rules.append(['S', []])
+    if not any(v == 'S' for v, _ in rules):
+        rules.insert(0, ['S', [['V', vs[1]], ['V', vs[-1]]]])
+    return mk_cfg(rules, 'S', extra_vars=vs, extra_terms=ts)
+
+
+# ---------------------------------------------------------------- PDAs
+def random_pda(rng, nstates=3, sigma='ab', gamma='xy', eps='_', ntrans=6, pfinal=0.4, kinds=None):
+    Q = ['q%d' % i for i in range(nstates)]
+    kinds = kinds or ['push', 'pop', 'noop', 'replace', 'push', 'pop']
+    delta = []
+    for _ in range(ntrans):
+        p, q = rng.choice(Q), rng.choice(Q)
+        a = rng.choice(list(sigma) + [eps]) if sigma else eps
+        k = rng.choice(kinds)
+        g = list(gamma) or ['x']
+        if k == 'push':
+            u, v = eps, rng.choice(g)
+        elif k == 'pop':
+            u, v = rng.choice(g), eps
+        elif k == 'noop':
+            u, v = eps, eps
+        else:
+            u, v = rng.choice(g), rng.choice(g)
+        t = [p, a, u, q, v]
+        if t not in delta:
+            delta.append(t)
+    x = rng.random()
+    F = [] if x < 0.06 else (list(Q) if x < 0.12 else [q for q in Q if rng.random() < pfinal])
+    gm = sorted(set(gamma) | {t[2] for t in delta if t[2] != eps} | {t[4] for t in delta if t[4] != eps})
+    return {'Q': Q, 'Sigma': list(sigma), 'Gamma': gm, 'delta': delta, 'q0': 'q0', 'F': F, 'eps': eps}
